@@ -1,17 +1,164 @@
-(* C39 — every JSON-RPC call completes exactly once with its own answer.  Theorems only. *)
+(* C39 — every JSON-RPC call completes exactly once with its own answer.
+   Theorems over the connection LTS of Model/C39.v (one transition per updateInFlight critical section of
+   x/jsonrpc2/conn.go + the shared idle/shutdown epilogue; any number of calls / notifications / requests /
+   Respond, Cancel, Close, Wait invocations; any interleaving).  Proofs in Proofs/C39*.v. *)
 From Coq Require Import List NArith ZArith Bool Arith String.
 Import ListNotations.
-From V Require Import Base.ConnView Gen.ConnSites Model.C39 Proofs.C39.
+From V Require Import Base.ConnView Gen.ConnSites Model.C39
+  Proofs.C39Base Proofs.C39Measure Proofs.C39Calls Proofs.C39Flight Proofs.C39Holders Proofs.C39Done Proofs.C39.
 
-(* K-gen: every updateInFlight critical section of conn.go (function, ordinal, body hash) is a modelled transition *)
+(* ------------------------------------------------------------------ K-gen obligations *)
+(* every updateInFlight critical section of conn.go (function, ordinal, body hash) is a modelled transition *)
 Theorem C39_sites_match : conn_sites = modelled_sites.
 Proof. exact sites_match. Qed.
+(* the functions whose control flow the thread program counters follow are the ones that were read *)
 Theorem C39_funcs_match : conn_funcs = modelled_funcs.
 Proof. exact funcs_match. Qed.
 Theorem C39_state_fields_match : fields_inFlightState = modelled_ifs_fields.
 Proof. exact ifs_fields_match. Qed.
+(* c.state is touched only by updateInFlight; retire is called only by Call and readIncoming;
+   only retire and updateInFlight close a channel *)
 Theorem C39_access_match :
   state_access_funcs = modelled_state_access /\ retire_callers = modelled_retire_callers /\ chan_closers = modelled_chan_closers.
 Proof. exact access_match. Qed.
+(* the translated idle() / shuttingDown() (Gen/ConnSites.v) say what the proofs rely on *)
+Theorem C39_gen_idle_spec : forall s,
+  idle s = true <-> s_outgoing s = [] /\ s_outNotifs s = 0 /\ s_incoming s = 0 /\ s_handlerRunning s = false.
+Proof. exact gen_idle_spec. Qed.
+Theorem C39_gen_shutting_down_spec : forall s, shutting_down s = s_connClosing s || s_readErr s || s_writeErr s.
+Proof. exact gen_shutting_down_spec. Qed.
+
+(* ------------------------------------------------------------------ safety, all reachable states *)
+(* none of the panics of conn.go ("retire called twice", "updateInFlight transitioned to non-idle when already
+   done", "processResult called when incoming count is already zero") nor a counter underflow is reachable *)
+Theorem C39_no_panic : forall p s l pn, reachable p s -> step s l <> Panic pn.
+Proof. exact no_panic. Qed.
+Theorem C39_retire_at_most_once : forall p s l, reachable p s -> step s l <> Panic PRetireTwice.
+Proof. intros p s l R. apply (no_panic p s l PRetireTwice R). Qed.
+Theorem C39_no_transition_after_done_breaks_idle : forall p s l, reachable p s -> step s l <> Panic PNonIdleAfterDone.
+Proof. intros p s l R. apply (no_panic p s l PNonIdleAfterDone R). Qed.
+
+(* outgoingCalls holds exactly the registered and not yet retired calls *)
+Theorem C39_map_is_registered_unretired : forall p s i c, reachable p s ->
+  (In (i, c) (s_outgoing s) <->
+   exists cr, nth_error (s_calls s) c = Some cr /\ c_id cr = Some i /\ c_reg cr = true /\ c_resp cr = None).
+Proof. exact map_iff. Qed.
+(* the response an AsyncCall holds carries the ID of that call; IDs are unique *)
+Theorem C39_await_gets_own_id : forall p s c cr r, reachable p s ->
+  nth_error (s_calls s) c = Some cr -> c_resp cr = Some r -> c_id cr = Some (rs_id r).
+Proof. exact own_id. Qed.
+Theorem C39_await_observes_own_id : forall p s c r s', reachable p s -> step s (LAwait c r) = Ok s' ->
+  exists cr, nth_error (s_calls s) c = Some cr /\ c_id cr = Some (rs_id r) /\ s' = s.
+Proof. exact await_own_id. Qed.
+Theorem C39_call_ids_unique : forall p s c c' cr cr' i, reachable p s ->
+  nth_error (s_calls s) c = Some cr -> nth_error (s_calls s) c' = Some cr' ->
+  c_id cr = Some i -> c_id cr' = Some i -> c = c'.
+Proof. exact unique_ids. Qed.
+(* a response, once set, is never replaced: every later Await returns the same answer *)
+Theorem C39_response_never_changes : forall p s l s' c cr r, reachable p s -> step s l = Ok s' ->
+  nth_error (s_calls s) c = Some cr -> c_resp cr = Some r ->
+  exists cr', nth_error (s_calls s') c = Some cr' /\ c_resp cr' = Some r.
+Proof. exact resp_stable. Qed.
+(* when Call has returned, the call is retired or registered (so that the reader / the broken connection retires it) *)
+Theorem C39_returned_call_retired_or_pending : forall p s c cr, reachable p s ->
+  nth_error (s_calls s) c = Some cr -> returned_pc (c_pc cr) = true ->
+  c_resp cr <> None \/ exists i, c_id cr = Some i /\ In (i, c) (s_outgoing s).
+Proof. exact call_returned_retired_or_pending. Qed.
+(* once done is closed every registered call and every call whose Call() returned has its response *)
+Theorem C39_every_call_retired_when_done : forall p s c cr, reachable p s -> s_done s = true ->
+  nth_error (s_calls s) c = Some cr -> (c_reg cr = true \/ returned_pc (c_pc cr) = true) -> c_resp cr <> None.
+Proof. exact retired_when_done. Qed.
+
+(* the response of an incoming request is written (attempted) at most once ... *)
+Theorem C39_incoming_answered_at_most_once : forall p s r rq, reachable p s ->
+  nth_error (s_reqs s) r = Some rq -> rq_answers rq <= 1.
+Proof. exact answered_once. Qed.
+(* ... and after it no thread, queue slot or pending-async slot holds the request in a stage that can write *)
+Theorem C39_answered_request_has_no_writer : forall p s r rq, reachable p s ->
+  nth_error (s_reqs s) r = Some rq -> rq_answers rq = 1 -> HW s r = 0.
+Proof. exact answered_no_writer. Qed.
+(* the counters of inFlightState count what is in flight *)
+Theorem C39_counters_exact : forall p s, reachable p s ->
+  s_outNotifs s = notif_count s /\ s_incoming s = in_flight s /\
+  s_handlerRunning s = match s_handler s with HNone => false | _ => true end.
+Proof. exact counters. Qed.
+
+(* done is closed only when idle, not reading, shutting down, with the stream closed and incomingByID empty *)
+Theorem C39_done_only_when_idle_and_not_reading : forall p s, reachable p s -> s_done s = true ->
+  idle s = true /\ s_reading s = false /\ shutting_down s = true /\ s_closer s = false /\ s_byID s = [].
+Proof. exact done_facts. Qed.
+Theorem C39_done_is_stable : forall s l s', step s l = Ok s' -> s_done s = true -> s_done s' = true.
+Proof. exact done_stable. Qed.
+(* closer.Close() and onDone() are each called at most once, and exactly once by the time done is closed *)
+Theorem C39_closed_once : forall p s, reachable p s ->
+  s_rwc_closes s <= 1 /\ s_ondones s <= 1 /\ (s_done s = true -> s_rwc_closes s = 1 /\ s_ondones s = 1).
+Proof. exact closed_once. Qed.
+
+(* ------------------------------------------------------------------ progress *)
+(* every step that is not the arrival of new work (API invocation, message from the peer) and not a pure
+   observation strictly decreases the measure: the implementation cannot run forever on its own, and
+   in-flight work only shrinks while nothing new arrives *)
+Theorem C39_close_progress : forall s l s', step s l = Ok s' -> is_progress l = true -> measure s' < measure s.
+Proof. exact measure_step. Qed.
+Theorem C39_observation_keeps_measure : forall s l s', step s l = Ok s' -> is_ack l = true -> measure s' = measure s.
+Proof. exact measure_ack. Qed.
+
+(* ------------------------------------------------------------------ non-vacuity *)
+Definition resp17 : response := {| rs_id := IInt 1; rs_body := BResult 7 |}.
+(* a call answered by the peer, awaited, then Close *)
+Definition ex_call : list label :=
+  [LStart; LStarted; LCallBegin false; LCallAlloc 0; LCallRegister 0; LWriteCall 0 WOk; LCallRet 0 (IInt 1);
+   LReadMsg (MResp resp17); LReadResponse; LAwait 0 resp17;
+   LCloseBegin; LCloseSet 0; LRwcClose; LReadErr; LReadExit; LOnDone; LWaitSec 0; LCloseRet 0].
+Example C39_example_call : exists s, run (init false) ex_call = Ok s /\ s_done s = true /\ quiescent s = true /\
+  exists cr, nth_error (s_calls s) 0 = Some cr /\ c_resp cr = Some resp17 /\ c_reg cr = true.
+Proof. eexists. split; [vm_compute; reflexivity|]. vm_compute. repeat split; eexists; repeat split. Qed.
+(* the peer disconnects while a call is outstanding: the reader retires it with the read error and its own ID *)
+Definition ex_disconnect : list label :=
+  [LStart; LCallBegin false; LCallAlloc 0; LCallRegister 0; LWriteCall 0 WOk; LCallRet 0 (IInt 1); LReadErr; LReadExit].
+Example C39_example_disconnect : exists s, run (init false) ex_disconnect = Ok s /\ s_done s = true /\
+  exists cr, nth_error (s_calls s) 0 = Some cr /\ c_resp cr = Some {| rs_id := IInt 1; rs_body := BErr e_read |}.
+Proof. eexists. split; [vm_compute; reflexivity|]. vm_compute. repeat split; eexists; repeat split. Qed.
+(* an incoming call handled and answered once, a second one rejected while closing *)
+Definition ex_incoming : list label :=
+  [LStart; LReadMsg (MReq (Some (IInt 5))); LAccept; LEnqueue; LDequeue; LHCheck; LHandleBegin 0;
+   LCloseBegin; LCloseSet 0; LReadMsg (MReq (Some (IInt 6))); LAccept; LResultDelete WhoReader;
+   LWriteResp WhoReader {| rs_id := IInt 6; rs_body := BErr e_srvclosing |} WOk; LResultDec WhoReader;
+   LHandleRet 0 (OOk 3); LResultDelete WhoHandler; LWriteResp WhoHandler {| rs_id := IInt 5; rs_body := BResult 3 |} WOk;
+   LResultDec WhoHandler; LDequeue; LReadErr; LReadExit].
+Example C39_example_incoming : exists s, run (init false) ex_incoming = Ok s /\ s_done s = true /\
+  map rq_answers (s_reqs s) = [1; 1] /\ s_rwc_closes s = 1.
+Proof. eexists. split; [vm_compute; reflexivity|]. vm_compute. repeat split. Qed.
+(* the measure really moves: it is 4 initially and 0 after the run above is over *)
+Example C39_example_measure : measure (init false) = 4 /\
+  match run (init false) ex_disconnect with Ok s => measure s | _ => 99 end = 0.
+Proof. vm_compute. split; reflexivity. Qed.
+(* a panic is a possible outcome of [step] on unreachable states (the theorems are not vacuous about Panic) *)
+Example C39_example_panic_possible :
+  step (set_reader (RBusy 0 (RPR PDec)) (init false)) (LResultDec WhoReader) = Panic PIncomingZero.
+Proof. vm_compute. reflexivity. Qed.
 
 Print Assumptions C39_sites_match.
+Print Assumptions C39_funcs_match.
+Print Assumptions C39_state_fields_match.
+Print Assumptions C39_access_match.
+Print Assumptions C39_gen_idle_spec.
+Print Assumptions C39_gen_shutting_down_spec.
+Print Assumptions C39_no_panic.
+Print Assumptions C39_retire_at_most_once.
+Print Assumptions C39_no_transition_after_done_breaks_idle.
+Print Assumptions C39_map_is_registered_unretired.
+Print Assumptions C39_await_gets_own_id.
+Print Assumptions C39_await_observes_own_id.
+Print Assumptions C39_call_ids_unique.
+Print Assumptions C39_response_never_changes.
+Print Assumptions C39_returned_call_retired_or_pending.
+Print Assumptions C39_every_call_retired_when_done.
+Print Assumptions C39_incoming_answered_at_most_once.
+Print Assumptions C39_answered_request_has_no_writer.
+Print Assumptions C39_counters_exact.
+Print Assumptions C39_done_only_when_idle_and_not_reading.
+Print Assumptions C39_done_is_stable.
+Print Assumptions C39_closed_once.
+Print Assumptions C39_close_progress.
+Print Assumptions C39_observation_keeps_measure.
